@@ -57,6 +57,7 @@ package store
 //@   ensures [tombstone-final] result && uint8(current) == 3 ==> uint8(next) == 3
 //@   ensures [known-states-only] result && uint8(current) != uint8(next) ==> uint8(current) <= 3 && uint8(next) <= 3
 //@   ensures [no-skip-back-to-new] result && uint8(current) != uint8(next) ==> uint8(next) != 0
+//@   tag ghost-pure
 //@   modifies nothing
 
 // C23 (sequential kernel): a command is only served after this store observed itself as
@@ -210,3 +211,32 @@ package store
 //@   exit [source-removed-with-the-extension] result == nil ==> regionRemovals == old(regionRemovals) + 1 && lastRemovedID == sourceMeta.ID
 //@   ensures [no-removal-without-extension] regionRemovals > old(regionRemovals) ==> regionUpdates > old(regionUpdates)
 //@   ensures [not-adjacent-or-unknown-touches-nothing] regionUpdates == old(regionUpdates) ==> regionRemovals == old(regionRemovals)
+
+// C24 "the catalog reloads identically": what updateRegion logs to the manifest is the
+// same region record it installs in the live catalog (the normalised copy: an unset state
+// becomes Running), and only after the state transition was validated.
+//@ ghost var regionLogs Int
+//@ ghost var loggedID uint64
+//@ ghost var loggedState uint8
+//@ ghost var loggedVersion uint64
+//@ ghost var loggedConfVersion uint64
+//@ func github.com/feichai0017/NoKV/manifest::(*Manager).LogRegionUpdate
+//@   trusted
+//@   ghost regionLogs = regionLogs + 1
+//@   ghost loggedID = meta.ID
+//@   ghost loggedState = uint8(meta.State)
+//@   ghost loggedVersion = meta.Epoch.Version
+//@   ghost loggedConfVersion = meta.Epoch.ConfVersion
+//@   modifies nothing
+//@ func github.com/feichai0017/NoKV/raftstore/peer::(*Peer).SetRegionMeta
+//@   trusted
+//@   modifies nothing
+//@ func github.com/feichai0017/NoKV/metrics::field (RegionHooks).OnRegionUpdate
+//@   trusted
+//@   modifies nothing
+//@ func (*regionManager).updateRegion
+//@   property C24
+//@   exit [logs-what-it-installs] result == nil && rm.manifest != nil ==> regionLogs == old(regionLogs) + 1 && loggedID == metaCopy.ID && loggedState == uint8(metaCopy.State) && loggedVersion == metaCopy.Epoch.Version && loggedConfVersion == metaCopy.Epoch.ConfVersion
+//@   exit [installed-state-is-set] result == nil ==> uint8(metaCopy.State) != 0 && metaCopy.ID == meta.ID
+//@   exit [transition-was-valid] result == nil ==> uint8(metaCopy.State) >= uint8(currentState)
+//@   ensures [failure-logs-at-most-once] regionLogs <= old(regionLogs) + 1
